@@ -66,11 +66,11 @@ def corpus_shard(arg):
     cls = env_classes()[cname]
     native = cname == "Native"
     for it in corpus.items(ctier, shard=(k, n)):
-        env, gm, data = it.make(env_cls=cls)
+        env, gm, data = corpus.safe_make(it, env_cls=cls)
         ref = tag(corpus.outcome(lambda: gm().render(**data)))
         ref_gen = corpus.outcome(lambda: "".join(map(str, gm().generate(**data))))
         p.evals += 1
-        aenv, agm, adata = it.make(env_cls=cls, env_kwargs={"enable_async": True})
+        aenv, agm, adata = corpus.safe_make(it, env_cls=cls, env_kwargs={"enable_async": True})
         try:
             t = agm()
         except Exception as e:  # noqa: BLE001
